@@ -236,6 +236,64 @@ def names(cx, entry="solve"):
             except (RuntimeError, TypeError, KeyError):
                 rejected = True
             cx.claim_true("%s(method=%r) rejected" % (entry, bad), rejected)
+        # the empty name is an unknown name like any other
+        try:
+            call("")
+            rejected = False
+        except (RuntimeError, TypeError, KeyError):
+            rejected = True
+        cx.claim_true("%s(method='') rejected" % entry, rejected)
+    return "ok"
+
+
+class _FalsyMethod:
+    """a callable object that is falsy (it has a length, and the length is 0): still a caller-supplied method"""
+
+    def __init__(self, fn):
+        self.fn = fn
+        self.ncalls = 0
+
+    def __len__(self):
+        return 0
+
+    def __call__(self, *a, **k):
+        self.ncalls += 1
+        return self.fn(*a, **k)
+
+
+def falsy_callable(cx, entry="rootfinder"):
+    """a caller-supplied callable is used whatever its truth value"""
+    y0 = cx.sym("y0", (1,))
+    ys = cx.sym("ys", (1,))
+    A = cx.sym("A", (2, 2))
+    B = cx.sym("B", (2, 1))
+    Xp = cx.sym("Xp", (2, 1))
+    x3 = cx.const(torch.tensor([0.0, 0.5, 2.0], dtype=torch.float64))
+    with torch.no_grad():
+        if entry in ("rootfinder", "equilibrium", "minimize"):
+            m = _FalsyMethod(lambda fcn, y0_, params, **kw: ys.clone())
+            fn = {"rootfinder": rootfinder, "equilibrium": equilibrium, "minimize": minimize}[entry]
+            f = (lambda y: (y * y).sum()) if entry == "minimize" else (lambda y: y * 0.5 + 0.25)
+            out = fn(f, y0, method=m)
+            cx.claim_eq("result is what the callable returned", out, ys)
+        elif entry == "solve":
+            m = _FalsyMethod(lambda A_, B_, E_, M_, **kw: Xp.clone())
+            cx.assume(B[0, 0] != 0, note="an all-zero right-hand side takes the documented shortcut and calls no method")
+            out = solve(LinearOperator.m(A, is_hermitian=False), B, method=m)
+            cx.claim_eq("result is what the callable returned", out, Xp)
+        elif entry == "solve_ivp":
+            yt = cx.sym("yt", (3, 1))
+            m = _FalsyMethod(lambda fcn, ts, y0_, params, **kw: yt.clone())
+            out = solve_ivp(lambda t, y: -y, x3, y0, method=m)
+            cx.claim_eq("result is what the callable returned", out, yt)
+        elif entry == "quad":
+            q = cx.sym("q", (1,))
+            m = _FalsyMethod(lambda fcn, xl, xu, params, **kw: q.clone())
+            out = quad(lambda x: x * x * y0, 0.0, 1.0, method=m)
+            cx.claim_eq("result is what the callable returned", out, q)
+        else:
+            raise KeyError(entry)
+    cx.claim_true("the callable was called", m.ncalls >= 1, detail="%d calls" % m.ncalls)
     return "ok"
 
 
@@ -266,6 +324,8 @@ def configs(tier):
 
     add("callable/solve", solve_callable)
     add("callable/symeig", symeig_callable)
+    for entry in ("rootfinder", "equilibrium", "minimize", "solve", "solve_ivp", "quad"):
+        add("falsy_callable/%s" % entry, falsy_callable, entry=entry)
     add("callable/solve_ivp", ivp_callable)
     from harness.c08 import option_flow
     add("callable/solve_ivp/bck_options", option_flow, case="bck_options")
